@@ -8,7 +8,8 @@ order; `#[bfield_codec(ignore)]` fields are not part of the shape, the generated
 `bfieldcodec_derive/src/lib.rs` generates. The quantifier over *all programs* of the shape grammar is the
 quantifier over `fs : List Ty` / `vars : List (List Ty)` (any field count, any static/dynamic mix, any nesting —
 generic parameters are instantiated types). The tie between the `quote!` templates and these constructors is a
-finite corpus (family `derive`: 43 type definitions × both macro versions, compared bit for bit) — see
+finite corpus (family `derive`: 43 type definitions × both macro versions, compared bit for bit, plus 48 random shape definitions
+generated from the seed by `harness/build.rs`) — see
 `tools/props/C14.json`.
 
 The theorems below are the C03/C13 guarantees *for these constructors* (the mutual induction of
